@@ -48,7 +48,7 @@ no-trapping-trunc-out-of-range, no-mem-oob, no-call-indirect-{null,oob,sig-misma
 no-unreachable, rounding-nonneg-finite-only, minmax-const-second-operand,
 sqrt-of-abs, trunc-sat-no-nan, float-div-nonzero-divisor, float-cmp-gt-ge-only,
 no-nonfinite-float-const, no-exported-float-global, no-f32-arith,
-no-f32-sqrt-demote, f32-convert-i64-53bit, const-shift-count,
+no-f32-sqrt-demote, f32-convert-i64-53bit, const-shift-count, no-i64-shift,
 no-loop-in-dead-code, no-imported-func-in-elem.  Each flag replaces the free
 operand of the named construct by one that is in the safe class by construction
 (see FuncGen.numeric); nothing is filtered on results.
@@ -674,6 +674,8 @@ class FuncGen:
             names = [x for x in names if x not in F32_ARITH]
         if t == F32 and "no-f32-sqrt-demote" in av:
             names = [x for x in names if x not in ("f32.sqrt", "f32.demote_f64")]
+        if t == I64 and "no-i64-shift" in av:
+            names = [x for x in names if x not in ("i64.shl", "i64.shr_s", "i64.shr_u")]
         n = r.choice(names)
         args, _ = SIG[n]
         base = n.split(".")[1]
